@@ -45,7 +45,7 @@ class Magnifier(AgnosticOpticalElement):
         wf = wavefront.copy()
 
         wf.electric_field.grid = wf.electric_field.grid.scaled(instance_data.magnification)
-        wf.electric_field /= np.sqrt(np.prod(instance_data.magnification))
+        wf.electric_field /= np.sqrt(np.abs(np.prod(instance_data.magnification)))
 
         return wf
 
@@ -54,6 +54,6 @@ class Magnifier(AgnosticOpticalElement):
         wf = wavefront.copy()
 
         wf.electric_field.grid = wf.electric_field.grid.scaled(1.0 / instance_data.magnification)
-        wf.electric_field *= np.sqrt(np.prod(instance_data.magnification))
+        wf.electric_field *= np.sqrt(np.abs(np.prod(instance_data.magnification)))
 
         return wf
